@@ -53,6 +53,8 @@ Bounded == MaxDepth = 0 \/ Len(path) < MaxDepth
 (* ---- the subscribe call reaches RpcService::call: permit or -32006 (rpc.rs:107-132) ---- *)
 Subscribe(k) ==
   /\ Bounded /\ sub[k].st = "idle"
+  /\ (MaxDepth > 0 => open[ConnOf[k]])        \* the serialised driver (bounded configs) never sends on a connection it has closed;
+                                              \* in concurrent runs a message read before the close may start its handler afterwards
   /\ IF permits[ConnOf[k]] > 0
        THEN /\ permits' = [permits EXCEPT ![ConnOf[k]] = @ - 1]
             /\ sub' = [sub EXCEPT ![k] = [@ EXCEPT !.st = "pending", !.pend = TRUE]]
@@ -193,7 +195,8 @@ Unsub(c, k) ==
 HandlerReturn(k, closing) ==
   \* only an accepted subscription's handler ever returns a value: after reject / drop / failed accept the library cancels
   \* the handler future (try_join with the `accepted` oneshot, rpc_module.rs:836-841) and its closing value is discarded
-  /\ Bounded /\ ~sub[k].ret /\ sub[k].st = "accepted" /\ sub[k].sinks = 0
+  \* (sinks may outlive the handler future: moved into other tasks / shared state - the subscription stays active through them)
+  /\ Bounded /\ ~sub[k].ret /\ sub[k].st = "accepted"
   /\ sub' = [sub EXCEPT ![k].ret = TRUE]
   /\ queue' = IF closing /\ sub[k].st = "accepted" /\ open[ConnOf[k]] /\ Room(ConnOf[k])
                 THEN Enq(ConnOf[k], [t |-> "close", k |-> k]) ELSE queue
